@@ -41,7 +41,7 @@ uint8_t g_d1, g_d2, g_d3, g_d4; /* bytes after the first SP (pre-state) */
 
 /* recorded by the ASSUMED contracts of the http_conn.c setters */
 size_t      g_st_calls;  uint16_t g_st_code; const char *g_st_reason;
-size_t      g_ver_calls; const char *g_ver_arg;
+size_t      g_ver_calls; const char *g_ver_arg; int g_ver_rv;
 size_t      g_meth_calls; const char *g_meth_arg;
 size_t      g_uri_calls; const char *g_uri_arg; const char *g_uri_query;
 size_t      g_add_calls; const char *g_add_key; const char *g_add_val;
